@@ -9,12 +9,28 @@ TRUSTED_BASE = [
     "third-party crates (atomic-arena, rtrb, triple_buffer, glam, symphonia) are modelled or exercised, not verified",
 ]
 
-HOOK_COMMITS = ["0629e56"]
+HOOK_COMMITS = ["0629e56", "a0e4ab0"]
 
 # properties not (yet) claimed, with the reason shown in MANIFEST.not_applicable
 NOT_YET = {}
 
 PROPS = {
+    "C06": {
+        "suites": [{"name": "param", "quick": 1500, "thorough": 60000}],
+        "level_text": "12 Lean theorems about the model of parameter.rs over the reals: closed form "
+                      "start + (target-start)*ease(T/D) for every partition of time into updates, exact landing on the target "
+                      "with the finished flag raised exactly once, holding the target for ever, no overshoot for the built-in "
+                      "easings, zero-duration tweens, retargeting from the current value, chunk continuity, delayed and clock "
+                      "start semantics; the same definitions run as a Float twin and agree bit-for-bit with kira::Parameter<T> "
+                      "for f64/f32/Decibels/Panning/PlaybackRate/Duration/ClockSpeed on every generated op",
+        "level_note": "theorems over ideal real arithmetic (float rounding only in the twin); closed form proved for fixed targets "
+                      "(modulator-linked targets are covered by the correspondence and C17); Vec3/Quat parameters are exercised "
+                      "under C15; tie to the code = differential correspondence through the public Parameter API",
+        "assumptions": [
+            "update steps dt >= 0 and finite; easing powers > 0",
+            "Duration::from_secs_f64 over the reals modelled as rounding to the nearest nanosecond",
+        ],
+    },
     "C19": {
         "suites": [{"name": "units", "quick": 3000, "thorough": 150000}],
         "level_text": "19 Lean theorems (monotone/exact decibel law, equal-power pan law, octave law, clock-speed unit "
